@@ -288,12 +288,40 @@ inductive Tail where
 deriving DecidableEq, Repr
 
 inductive FErr where
-  | missingFinal | badType | decrypt | finalPlaintext | trailing | shortFrame
+  | missingFinal | badType | decrypt | finalPlaintext | trailing | shortFrame | noEof
 deriving DecidableEq, Repr
 
 def FErr.name : FErr → String
   | .missingFinal => "missing-final" | .badType => "bad-type" | .decrypt => "decrypt"
   | .finalPlaintext => "final-plaintext" | .trailing => "trailing" | .shortFrame => "short-frame"
+  | .noEof => "no-eof"
+
+/-! ### the end-of-stream check over the `io.Reader` contract
+
+`requireEncryptedArchiveEOF` issues ONE `Read` into a one-byte buffer and inspects `(n, err)`. The contract
+allows a reader to return `n > 0` TOGETHER with `io.EOF` (the last data and the end of stream in one call),
+to return fewer bytes than asked, and even `(0, nil)`. `ReadRes` is such a result (`eof` = `err == io.EOF`;
+any other error aborts and is not modelled), `ValidRead rest req` says when the contract allows it on a stream
+with `rest` bytes left. The code looks at `n` FIRST: `n > 0` is trailing data whatever `err` says. -/
+structure ReadRes where
+  n   : Nat
+  eof : Bool
+deriving DecidableEq, Repr
+
+def ValidRead (rest : Bytes) (req : Nat) (r : ReadRes) : Prop :=
+  r.n ≤ req ∧ r.n ≤ rest.length ∧ (r.eof = true → r.n = rest.length)
+
+inductive EofVerdict where
+  | clean | trailing | noEof
+deriving DecidableEq, Repr
+
+/-- `requireEncryptedArchiveEOF`: `n > 0` → trailing data; else `err == nil` → "did not end"; else EOF → clean -/
+def requireEOF (r : ReadRes) : EofVerdict :=
+  if r.n > 0 then .trailing else if r.eof then .clean else .noEof
+
+/-- the variant that inspects `err` before `n` (NOT what the code does; kept to show why the order matters) -/
+def requireEOFErrFirst (r : ReadRes) : EofVerdict :=
+  if r.eof then .clean else if r.n > 0 then .trailing else .noEof
 
 /-- `encryptedArchiveWriter`: one data frame per chunk, index counting from `i`, then the empty final frame. -/
 def writeFrom {K H C : Type} (A : Aead K (Aad H) C) (k : K) (hh : H) : Nat → List Bytes → List (Frame C)
@@ -323,6 +351,38 @@ def readFrames {K H C : Type} (A : Aead K (Aad H) C) (k : K) (hh : H) : Nat → 
           else if rest ≠ [] ∨ tail ≠ Tail.clean then .error .trailing
           else .ok []
         else consChunk p (readFrames A k hh (i + 1) rest tail)
+
+/-- what the one-byte probe after the final frame returns, as a function of "nothing follows the final frame" -/
+abbrev Probe := Bool → ReadRes
+
+/-- readers that deliver data while there is data and `(0, EOF)` at the end (bytes.Reader, files, one-byte,
+half, data-with-EOF readers all answer the probe like this) -/
+def directProbe : Probe := fun nothingFollows => if nothingFollows then ⟨0, true⟩ else ⟨1, false⟩
+
+/-- a reader that answers the first call at every offset with `(0, nil)` -/
+def zeroProbe : Probe := fun _ => ⟨0, false⟩
+
+/-- a probe the contract allows: while bytes follow, it cannot claim `(0, EOF)` -/
+def Probe.Valid (p : Probe) : Prop := ¬ ((p false).n = 0 ∧ (p false).eof = true)
+
+/-- `readFrames` with the end-of-stream check made explicit: the final frame is followed by ONE probe read whose
+result is judged by `requireEOF`. `readFrames` is the instance with `directProbe` (`readFramesVia_direct`). -/
+def readFramesVia {K H C : Type} (A : Aead K (Aad H) C) (k : K) (hh : H) (probe : Probe) :
+    Nat → List (Frame C) → Tail → Except FErr (List Bytes)
+  | _, [], .partialBody => .error .shortFrame
+  | _, [], _ => .error .missingFinal
+  | i, f :: rest, tail =>
+    if f.typ ≠ frameData ∧ f.typ ≠ frameFinal then .error .badType
+    else match A.openIt k ⟨hh, i, f.typ⟩ f.ct with
+      | none => .error .decrypt
+      | some p =>
+        if f.typ = frameFinal then
+          if p ≠ [] then .error .finalPlaintext
+          else match requireEOF (probe (decide (rest = [] ∧ tail = Tail.clean))) with
+            | .clean => .ok []
+            | .trailing => .error .trailing
+            | .noEof => .error .noEof
+        else consChunk p (readFramesVia A k hh probe (i + 1) rest tail)
 
 /-- The free (symbolic) AEAD: a ciphertext *is* the triple it seals. -/
 def symAead (K A : Type) [DecidableEq K] [DecidableEq A] : Aead K A (K × A × Bytes) where
@@ -521,6 +581,18 @@ def validateExtracted {D : Type} [DecidableEq D] (emptySha : D) (m : Man D) (fil
     m.files.all (fun f => decide (((files.get f.path).getD (0, emptySha)).1 = f.cbytes) &&
                           decide (((files.get f.path).getD (0, emptySha)).2 = f.sha))
 
+/-! ### `readManifest`: the WHOLE file is the manifest
+
+`os.ReadFile` + `json.Unmarshal(contents, &value)`: `Unmarshal` accepts exactly one JSON value surrounded by JSON
+white space (space, tab, CR, LF) and refuses anything else after it. `parseValue` is the abstract JSON value
+parser (value and the unconsumed rest). -/
+def isJsonSpace (b : Nat) : Bool := b == 0x20 || b == 0x09 || b == 0x0A || b == 0x0D
+
+def decodeWhole {M : Type} (parseValue : Bytes → Option (M × Bytes)) (bs : Bytes) : Option M :=
+  match parseValue bs with
+  | none => none
+  | some (m, rest) => if rest.all isJsonSpace then some m else none
+
 inductive LErr where
   | manifest | verify | schema | notEmpty
 deriving DecidableEq, Repr
@@ -540,5 +612,12 @@ def load {D R σ : Type} [DecidableEq D] (E : LoadEnv D R σ) (m : Man D) (dir :
   else
     ⟨.verifiedAll :: m.graphs.map (fun g => .assertSchema g.name) ++ m.graphs.map (fun g => .emptyCheck g.name) ++
       m.graphs.flatMap (graphBatches E m.codec dir), none⟩
+
+/-- `Load` from the bytes of manifest.json -/
+def loadBytes {D R σ : Type} [DecidableEq D] (E : LoadEnv D R σ) (parseValue : Bytes → Option (Man D × Bytes))
+    (manifestBytes : Bytes) (dir : Dir) : LRes R :=
+  match decodeWhole parseValue manifestBytes with
+  | none => ⟨[], some .manifest⟩
+  | some m => load E m dir
 
 end Dawgs.C20
